@@ -1,6 +1,7 @@
 package main
 
 import (
+	sdkmath "cosmossdk.io/math"
 	"fmt"
 	"math/big"
 	"sort"
@@ -35,18 +36,22 @@ type lockingStream struct {
 	profile string
 	// mapOrderBias: favour lock batches whose outcome would depend on the iteration order of a map
 	mapOrderBias bool
-	maxAgeD int64
-	maxAgeB int64
-	params  struct{ unlock, exit, jail, window, maxmissed int64 }
-	halted  bool
+	maxAgeD      int64
+	maxAgeB      int64
+	params       struct{ unlock, exit, jail, window, maxmissed int64 }
+	halted       bool
 	// CometBFT applies validator updates with a delay of two blocks: the last-commit (vote) infos of block N name the
 	// set recorded after block N-3.  setHist keeps the recorded sets; voteDelay (0 or 2) is fixed per world.
 	setHist   [][][2]string
 	voteDelay int
+	// tokens whose weight is raised by the next request batch (follow-up of a directed partial unlock)
+	raiseNext [][]byte
 }
 
 func init() {
-	streams["locking"] = func(seed uint64) Stream { return &lockingStream{worldStream: newWorldStream("goat-test-1"), profile: "mixed"} }
+	streams["locking"] = func(seed uint64) Stream {
+		return &lockingStream{worldStream: newWorldStream("goat-test-1"), profile: "mixed"}
+	}
 	streams["locking-rewards"] = func(seed uint64) Stream {
 		return &lockingStream{worldStream: newWorldStream("goat-test-1"), profile: "rewards"}
 	}
@@ -269,6 +274,60 @@ func (s *lockingStream) genReq(r *tr.Rng) *tr.Op {
 		s.uid++
 		unlocks = append(unlocks, fmt.Sprintf("%d|%x|%x|%x|%s", s.uid, s.pickTarget(r), r.Bytes(20), s.pickTok(r), amt(r)))
 		cls += "+unlock"
+	}
+	// a partial unlock followed by a higher weight of the same token: a jailed validator keeps its threshold (it stays jailed,
+	// without power and outside the locking index), an active or pending one is left with a non-zero rest below the threshold
+	// (it exits).  In both cases the next weight change must not find it in the index (C13, C14: no power, not ranked).
+	for _, t := range s.raiseNext {
+		if tok, err := s.w.Lock.Tokens.Get(s.w.Ctx, lockingtypes.TokenDenom(common.BytesToAddress(t))); err == nil && tok.Weight < 1<<40 {
+			weights = append(weights, fmt.Sprintf("%x|%d", t, tok.Weight+uint64(1+r.Intn(3))))
+			cls += "+weight-up-after-partial-unlock"
+		}
+	}
+	s.raiseNext = nil
+	if r.Chance(12) && len(s.vals) > 1 {
+		for _, v := range s.vals[1:] {
+			val, err := s.w.Lock.Validators.Get(s.w.Ctx, v.addr)
+			if err != nil || len(val.Locking) == 0 || val.Status == lockingtypes.Inactive || val.Status == lockingtypes.Tombstoned || r.Chance(40) {
+				continue
+			}
+			c := val.Locking[r.Intn(len(val.Locking))]
+			var tk []byte
+			for _, t := range s.tokens[1:] {
+				if lockingtypes.TokenDenom(common.BytesToAddress(t)) == c.Denom {
+					tk = t
+				}
+			}
+			tok, err := s.w.Lock.Tokens.Get(s.w.Ctx, c.Denom)
+			if tk == nil || err != nil {
+				continue
+			}
+			var out sdkmath.Int
+			if val.Status == lockingtypes.Downgrade {
+				keep := tok.Threshold
+				if !keep.IsPositive() {
+					keep = sdkmath.OneInt()
+				}
+				if !c.Amount.GT(keep) {
+					continue
+				}
+				out = c.Amount.Sub(keep).QuoRaw(int64(1 + r.Intn(2)))
+				cls += "+jailed-partial-unlock"
+			} else {
+				if !tok.Threshold.GT(sdkmath.OneInt()) || c.Amount.LT(tok.Threshold) {
+					continue
+				}
+				out = c.Amount.Sub(tok.Threshold).AddRaw(1) // the rest: threshold - 1
+				cls += "+unlock-to-below-threshold"
+			}
+			if !out.IsPositive() {
+				continue
+			}
+			s.uid++
+			unlocks = append(unlocks, fmt.Sprintf("%d|%x|%x|%x|%s", s.uid, v.addr, r.Bytes(20), tk, out.String()))
+			s.raiseNext = append(s.raiseNext, tk)
+			break
+		}
 	}
 	// a jailed validator: now and then every token it holds loses its weight, and a small lock arrives for it (after the jail
 	// time this re-admits it — with no voting power at all, so it must not be ranked)
